@@ -1,1 +1,195 @@
+(* C11 -- promise: resolved at most once, every awaiter sees that result and returns.
+   Statements only.  "For every number of concurrent setters and awaiters, every interleaving, every result
+   and error value" = for every list of events of the model of Promise/Model.v (any number of promises and
+   calls; every placement of the Swap, the field writes, wake-ups, cancellations, channel sends, container
+   sections; values are arbitrary N, errors nil / context.Canceled / context.DeadlineExceeded / other i). *)
 From Util Require Import Common.Base Common.ListLemmas Promise.Model Promise.Spec Promise.Proofs.
+
+(* Exactly the first SetResult returns true.  [won p] = SetResult calls on p that won the Swap (parked before
+   the writes, or returned true): there is exactly one once isDone is set, none for a promise constructed
+   resolved; the ticket t of a call is the number of Swaps executed on p before its own (the constructor's
+   Store counts as one): it returned true iff t = 0. *)
+Theorem c11_exactly_first_setresult_true : forall es p q,
+  let s := run es in
+  nth_error (proms s) p = Some q ->
+  cnt (won p) (acts s) = (if pre q then 0 else b2n (isdone q)) /\
+  (forall a x r t, nth_error (acts s) a = Some x -> pc x = PSetRet p r t -> (r = true <-> t = 0)) /\
+  (forall a x v e t, nth_error (acts s) a = Some x -> pc x = PSetGate p v e t -> t = 0).
+Proof. intros es p q. exact (exactly_first_g (run es) p q (run_inv es)). Qed.
+Print Assumptions c11_exactly_first_setresult_true.
+
+(* ... and the Swap decides at once: a SetResult that runs its Swap after another one returns false even
+   while the winner has not yet published (it is still parked before the writes) *)
+Theorem c11_swap_decides : forall s a x p v e q c,
+  nth_error (acts s) a = Some x -> pc x = PSet p v e -> nth_error (proms s) p = Some q ->
+  let s' := step s (Step a c) in
+  (exists y, nth_error (acts s') a = Some y /\
+             pc y = if isdone q then PSetRet p false (nswaps q) else PSetGate p v e (nswaps q)) /\
+  (exists q', nth_error (proms s') p = Some q' /\ isdone q' = true /\ nswaps q' = S (nswaps q) /\
+              wres q' = if isdone q then wres q else Some (v, e)).
+Proof. exact (swap_decides true). Qed.
+Print Assumptions c11_swap_decides.
+
+(* done closed => the two fields hold the winner's arguments, were written exactly once, nobody is left
+   between Swap and writes; and no event ever changes them again *)
+Theorem c11_fields_published_before_close : forall es p q,
+  let s := run es in
+  nth_error (proms s) p = Some q -> dclosed q = true ->
+  (wres q = Some (fval q, ferr q) /\ nwrites q = 1 /\ isdone q = true /\ cnt (at_pubgate p) (acts s) = 0) /\
+  forall e, exists q', nth_error (proms (step s e)) p = Some q' /\
+                       dclosed q' = true /\ fval q' = fval q /\ ferr q' = ferr q /\ nwrites q' = nwrites q /\ wres q' = wres q.
+Proof. exact fields_published_run. Qed.
+Print Assumptions c11_fields_published_before_close.
+
+(* every Await / AwaitWithErrCh / AwaitWithCancelCh (on a promise or on the container) that completed by
+   result returned the winner's value and error *)
+Theorem c11_await_returns_winner : forall es a x v e p,
+  let s := run es in
+  nth_error (acts s) a = Some x -> pc x = ARet v e (Some p) ->
+  exists q, nth_error (proms s) p = Some q /\ dclosed q = true /\ wres q = Some (v, e).
+Proof. intros es a x v e p. exact (await_returns_winner_g (run es) a x v e p (run_inv es)). Qed.
+Print Assumptions c11_await_returns_winner.
+
+(* liveness as quiescence safety.  In every reachable state without an enabled internal step:
+   - no Promise awaiter is blocked while a result is available (isDone set: some SetResult won, or the
+     promise was constructed resolved), its context is cancelled, or its channel fired;
+   - a container awaiter in the nil branch: context live, channel not fired, and the container still holds nil;
+   - a container awaiter in the promise branch: context live, it waits on the CURRENT promise, which has no result.
+     EXCEPTION (known finding D20, see c11_container_errch_refuted): nothing is claimed about its own
+     err / cancel channel in this branch, because the code does not select on it there. *)
+Theorem c11_await_quiescent : forall es a x,
+  let s := run es in
+  quiescent s = true -> nth_error (acts s) a = Some x ->
+  (forall k p, pc x = PAw k p ->
+     actx x = false /\ ch_ready k (ach x) = false /\ exists q, nth_error (proms s) p = Some q /\ isdone q = false) /\
+  (forall k ch, pc x = CNil k ch -> actx x = false /\ ch_ready k (ach x) = false /\ cprom s = None) /\
+  (forall k p ch, pc x = CProm k p ch ->
+     actx x = false /\ cprom s = Some p /\ exists q, nth_error (proms s) p = Some q /\ isdone q = false).
+Proof. exact await_quiescent_run. Qed.
+Print Assumptions c11_await_quiescent.
+
+(* the full-strength clause "... or its error/cancel channel fires" is FALSE for container awaiters:
+   a reachable quiescent state with a blocked container awaiter whose error channel has fired (D20) *)
+Theorem c11_container_errch_refuted :
+  exists es, let s := run es in
+  quiescent s = true /\
+  exists x ch, nth_error (acts s) 1 = Some x /\ pc x = CProm KErrCh 0 ch /\ actx x = false /\ ch_ready KErrCh (ach x) = true.
+Proof. exists d20_events. exact container_errch_refuted_g. Qed.
+Print Assumptions c11_container_errch_refuted.
+
+(* a container awaiter follows replacements: from inside p.AwaitWithCancelCh(ctx, waitCh) it goes back to
+   its HoldLock gate only when the wait channel is closed (the promise was replaced); it returns
+   (0, Canceled) without a result only when its own context is cancelled; otherwise it returns p's published
+   result -- and a result whose error is Canceled under a live context only while p is still current *)
+Theorem c11_container_follows_replacement : forall es a x k p ch c,
+  let s := run es in
+  nth_error (acts s) a = Some x -> pc x = CProm k p ch ->
+  (closed (cb s) ch = false -> cprom s = Some p) /\
+  let s' := step s (Step a c) in
+  (s' = s \/
+   exists y, nth_error (acts s') a = Some y /\ actx y = actx x /\ ach y = ach x /\
+     proms s' = proms s /\ cb s' = cb s /\ cprom s' = cprom s /\
+     ((pc y = CGate k /\ closed (cb s) ch = true /\ actx x = false) \/
+      (pc y = ARet 0%N ECanceled None /\ actx x = true) \/
+      (exists q, nth_error (proms s) p = Some q /\ dclosed q = true /\ wres q = Some (fval q, ferr q) /\
+                 pc y = ARet (fval q) (ferr q) (Some p) /\
+                 (ferr q = ECanceled -> actx x = true \/ closed (cb s) ch = false)))).
+Proof. exact container_follows_replacement_run. Qed.
+Print Assumptions c11_container_follows_replacement.
+
+(* ... and it does return the current promise's result, for EVERY result including (v, context.Canceled):
+   live context, p still current and published => whatever case the scheduler prefers, the awaiter returns
+   exactly p's winner's (value, error) *)
+Theorem c11_container_returns_current_result : forall es a x k p ch q c,
+  let s := run es in
+  nth_error (acts s) a = Some x -> pc x = CProm k p ch ->
+  nth_error (proms s) p = Some q -> dclosed q = true -> actx x = false -> closed (cb s) ch = false ->
+  cprom s = Some p /\ wres q = Some (fval q, ferr q) /\
+  exists y, nth_error (acts (step s (Step a c))) a = Some y /\ pc y = ARet (fval q) (ferr q) (Some p).
+Proof. intros es a x k p ch q c. exact (container_returns_current_g (run es) a x k p ch q c (run_inv es)). Qed.
+Print Assumptions c11_container_returns_current_result.
+
+(* "blocks without consuming CPU" -- PARTIAL BY NATURE.  Proved on the model: an awaiter (of a promise or of
+   the container) that is the only thing that runs is, after at most 3 segments and whatever select cases
+   are preferred, returned or blocked with no ready case; and a returned / blocked actor does nothing when
+   scheduled.  On the implementation this is enforced by the harness (at most 3 passes of the HoldLock
+   entry gate while running alone, else status "spinning"; wall-clock watchdog); CPU time is not modelled. *)
+Theorem c11_no_spin : forall es a x c1 c2 c3,
+  let s := run es in
+  nth_error (acts s) a = Some x ->
+  at_select x = true \/ (exists k, pc x = CGate k) ->
+  let s' := solo true s a [c1; c2; c3] in
+  (exists y, nth_error (acts s') a = Some y /\ (returned y = true \/ (at_select y = true /\ any_ready s' y = false))) /\
+  forall c, step s' (Step a c) = s'.
+Proof. exact no_spin_run. Qed.
+Print Assumptions c11_no_spin.
+
+(* the code before /repo 27bd93c (D11) violates it: container resolved with (3, context.Canceled), one awaiter
+   with a live context.  From state s the awaiter, run alone, is back in s after 2 segments, for every
+   choice of select cases -- it never returns that result and never blocks.  (The current code returns
+   (3, Canceled): c11_example_canceled_result_returned.) *)
+Theorem c11_pinned_refuted :
+  exists es a, let s := run_pinned es in
+  (exists x, nth_error (acts s) a = Some x /\ pc x = CGate KAwait /\ actx x = false) /\
+  cprom s = Some 0 /\ (exists q, nth_error (proms s) 0 = Some q /\ dclosed q = true /\ fval q = 3%N /\ ferr q = ECanceled) /\
+  forall c1 c2, solo false s a [c1; c2] = s.
+Proof. exists d11_events, 0. exact pinned_refuted_g. Qed.
+Print Assumptions c11_pinned_refuted.
+
+(* BOUNDED tie between the monitors and the model (the unbounded model_satisfies_monitors is NOT proved).
+   By computation in the kernel (vm_compute): for EVERY sequence of at most 5 events (config [0]; at most 4 with exit
+   gates, config [1]) from the candidate alphabet Proofs.cands (NewPromise, container SetResult(3, Canceled),
+   SetPromise(nil / every promise), GetPromise, SetResult(5, nil) / (2, Canceled) on every promise, the Await variants
+   incl. a pre-cancelled context and a pre-filled error channel with every possible select outcome, container awaits incl.
+   pre-cancelled / pre-fired, cancel / close / send for every actor, gate and exit-gate steps of every actor with every
+   possible select outcome) that the Spec-level step accepts -- 718 486 sequences for config [0] -- and for every such
+   sequence of at most 4 further events after three fixed prefixes (blocked container awaiter on a pending promise,
+   without and with exit gates; two SetResult calls raced with a blocked awaiter), the monitors run on the model's OWN
+   observations report nothing except clause 7, the recorded finding D20 (which these sweeps do reach). *)
+Theorem c11_monitors_accept_model_bounded :
+  sweep 5 (hinit [0%N]) minit = true /\
+  sweep 4 (hinit [1%N]) minit = true /\
+  sweep_from prefix_pending 4 (hinit [0%N]) minit = true /\
+  sweep_from prefix_pending_x 4 (hinit [1%N]) minit = true /\
+  sweep_from prefix_race 4 (hinit [0%N]) minit = true.
+Proof. exact monitors_accept_model_bounded. Qed.
+Print Assumptions c11_monitors_accept_model_bounded.
+
+(* ---------------- Examples (non-vacuity) ---------------- *)
+Example c11_example_canceled_result_returned :
+  exists x, nth_error (acts (run d11_events)) 0 = Some x /\ pc x = ARet 3%N ECanceled (Some 0).
+Proof. exact d11_fixed_returns. Qed.
+
+(* two SetResult calls race: the second Swap loses and returns false while the winner is still parked before
+   its writes; an awaiter is blocked meanwhile; after the publish step it returns the winner's (7, other 0) *)
+Example c11_example_race :
+  let s1 := run [NewPromise; CallAwait KAwait 0; CallSet 0 7%N (EOther 0); CallSet 0 9%N ENil; Step 1 0; Step 2 0; Step 0 0] in
+  let s2 := step (step s1 (Step 1 0)) (Step 0 0) in
+  map pc (acts s1) = [PAw KAwait 0; PSetGate 0 7%N (EOther 0) 0; PSetRet 0 false 1] /\
+  map pc (acts s2) = [ARet 7%N (EOther 0) (Some 0); PSetRet 0 true 0; PSetRet 0 false 1] /\
+  quiescent s1 = false /\ quiescent s2 = true.
+Proof. vm_compute. repeat split; reflexivity. Qed.
+
+(* a container awaiter follows a replacement and returns the new promise's result *)
+Example c11_example_replacement :
+  let s := run [NewPromise; NewPromise; CallCSetPromise (Some 0); Step 0 0; CallCAwait KCancelCh; Step 1 0; Step 1 0;
+                CallCSetPromise (Some 1); Step 2 0; Step 1 0; Step 1 0; Step 1 0;
+                CallSet 1 5%N EDeadline; Step 3 0; Step 3 0; Step 1 0] in
+  map pc (acts s) = [CSetRet false; ARet 5%N EDeadline (Some 1); CSetRet false; PSetRet 1 true 0] /\ quiescent s = true.
+Proof. vm_compute. split; reflexivity. Qed.
+
+Local Open Scope N_scope.
+(* the extracted checker's function agrees with the D11 corpus history and reports the spinning observation *)
+Example c11_example_check_d11 :
+  run_check_promise [0] [[8;0;0;0]; [10;3;1]; [5;1;5;1;0]; [5;0;4;3;1]]
+                        [[1;0;0]; [1;0;0;1;0;0]; [1;0;0;5;1;0]; [4;3;1;5;1;0]] = [] /\
+  run_check_promise [0] [[8;0;0;0]; [10;3;1]; [5;1;5;1;0]; [5;0;7;0;0]]
+                        [[1;0;0]; [1;0;0;1;0;0]; [1;0;0;5;1;0]; [7;0;0;5;1;0]]
+    = [Mismatch 3%nat [4;3;1;5;1;0] [7;0;0;5;1;0]; PropFalse 11%nat 8%nat 3%nat].
+Proof. vm_compute. split; reflexivity. Qed.
+
+(* ... and on the D20 history the model AGREES with the implementation while monitor clause 7 is false *)
+Example c11_example_check_d20 :
+  run_check_promise [0] [[1]; [9;1]; [5;0;5;0;0]; [8;1;0;0]; [5;1;2;0;0]; [7;1;5]]
+                        [[]; [1;0;0]; [5;0;0]; [5;0;0;1;0;0]; [5;0;0;2;0;0]; [5;0;0;2;0;0]] = [PropFalse 11%nat 7%nat 5%nat].
+Proof. vm_compute. reflexivity. Qed.
